@@ -20,6 +20,32 @@ for id in $ids; do
     [ $ok = 1 ] || fail=1
   done
 done
+# engines X and K: the whole evidence (minus wall-clock figures and the sample programs shown) must
+# repeat; engine X also across worker counts (engine K simulates one process instance per worker,
+# so its instance counts depend on the worker count by construction)
+for id in ${XIDS:-"C01 C20 C17"}; do
+  rm -f /tmp/verif-det-$id-*.json
+  for w in 16 16 5; do
+    VERIF_SEED=1 VERIF_WORKERS=$w ./check $id quick >/dev/null 2>&1
+    cp /verif/evidence/$id.json /tmp/verif-det-$id-$w-$RANDOM.json
+  done
+  python3 - "$id" <<'PY' || fail=1
+import json,glob,sys
+id=sys.argv[1]
+def strip(o):
+    if isinstance(o,dict):
+        return {k:strip(v) for k,v in o.items() if k!='samples' and not any(t in k for t in ('wall','per_hour','seconds','worker'))}
+    if isinstance(o,list): return [strip(x) for x in o]
+    return o
+fs=sorted(glob.glob(f'/tmp/verif-det-{id}-*.json'))
+same16={json.dumps(strip(json.load(open(f))),sort_keys=True) for f in fs if f'-{id}-16-' in f}
+alls={json.dumps(strip(json.load(open(f))),sort_keys=True) for f in fs}
+ok = len(same16)==1 and (id=='C17' or len(alls)==1)
+print(id, 'repeat at 16 workers:', 'SAME' if len(same16)==1 else 'DIFFERENT', '| 16 vs 5 workers:', 'SAME' if len(alls)==1 else ('n/a' if id=='C17' else 'DIFFERENT'))
+sys.exit(0 if ok else 1)
+PY
+  rm -f /tmp/verif-det-$id-*.json
+done
 # restore default-seed evidence
-for id in $ids; do VERIF_SEED=1 ./check $id quick >/dev/null 2>&1; done
+for id in $ids ${XIDS:-"C01 C20 C17"}; do VERIF_SEED=1 ./check $id quick >/dev/null 2>&1; done
 exit $fail
